@@ -2,3 +2,628 @@
 From Coq Require Import ZArith List Bool Lia.
 From C03 Require Import Model Spec.
 Import ListNotations.
+
+(* ------------------------------------------------------------------ *)
+(* frames: levels, the relation `rel`, `good` *)
+
+(* value of v in the frame at level j (0 = outermost) *)
+Fixpoint lvl (fr : list frame) (j : nat) (v : name) : option term :=
+  match fr with
+  | [] => None
+  | f :: r => if Nat.eqb j (length r) then lookup v f else lvl r j v
+  end.
+
+Definition rel (w : list (name * nat)) (fr fr' : list frame) : Prop :=
+  length fr = length fr' /\
+  forall v j, ~ In (v, j) w -> lvl fr' j v = lvl fr j v.
+
+Definition good (st st' : state) : Prop :=
+  exists w, log st' = w ++ log st /\ rel w (frames st) (frames st').
+
+Lemma lvl_out fr j v : (length fr <= j)%nat -> lvl fr j v = None.
+Proof.
+  induction fr as [|f r IH]; intros H; [reflexivity|].
+  cbn [lvl length] in *. destruct (Nat.eqb_spec j (length r)); [lia|]. apply IH. lia.
+Qed.
+
+Lemma good_refl st : good st st.
+Proof. exists []. split; [reflexivity|]. split; auto. Qed.
+
+Lemma good_trans a b c : good a b -> good b c -> good a c.
+Proof.
+  intros (w1 & L1 & N1 & R1) (w2 & L2 & N2 & R2).
+  exists (w2 ++ w1). split; [rewrite L2, L1, app_assoc; reflexivity|].
+  split; [congruence|].
+  intros v j Hn. rewrite R2, R1; auto; intros Hi; apply Hn, in_or_app; auto.
+Qed.
+
+Lemma lookup_frame_set_same k v f : lookup k (frame_set k v f) = Some v.
+Proof.
+  induction f as [|[k' v'] r IH]; cbn [frame_set lookup].
+  - rewrite Z.eqb_refl. reflexivity.
+  - destruct (Z.eqb_spec k k') as [->|Hne]; cbn [lookup].
+    + rewrite Z.eqb_refl. reflexivity.
+    + destruct (Z.eqb_spec k k'); [contradiction|]. exact IH.
+Qed.
+
+Lemma lookup_frame_set_other k v f u : u <> k -> lookup u (frame_set k v f) = lookup u f.
+Proof.
+  intros Hne. induction f as [|[k' v'] r IH]; cbn [frame_set lookup].
+  - destruct (Z.eqb_spec u k); [contradiction|reflexivity].
+  - destruct (Z.eqb_spec k k') as [->|Hkk]; cbn [lookup].
+    + destruct (Z.eqb_spec u k'); [contradiction|reflexivity].
+    + destruct (Z.eqb_spec u k'); [reflexivity|exact IH].
+Qed.
+
+(* writing key k in the frame at level (length r) *)
+Lemma rel_set_head k v f r :
+  rel [(k, length r)] (f :: r) (frame_set k v f :: r).
+Proof.
+  split; [reflexivity|].
+  intros u j Hn. cbn [lvl]. destruct (Nat.eqb_spec j (length r)) as [->|Hj]; [|reflexivity].
+  apply lookup_frame_set_other. intros ->. apply Hn. left; reflexivity.
+Qed.
+
+Lemma set_existing_rel k v fr fr' lv :
+  set_existing k v fr = Some (fr', lv) -> rel [(k, lv)] fr fr'.
+Proof.
+  revert fr' lv. induction fr as [|f r IH]; intros fr' lv H; cbn [set_existing] in H; [discriminate|].
+  destruct (lookup k f) eqn:E.
+  - inversion H; subst. apply rel_set_head.
+  - destruct (set_existing k v r) as [[r' lv']|] eqn:E2; [|discriminate].
+    inversion H; subst. destruct (IH _ _ eq_refl) as [Hl Hr].
+    split; [cbn [length]; congruence|].
+    intros u j Hn. cbn [lvl]. rewrite <- Hl.
+    destruct (Nat.eqb j (length r)); [reflexivity|]. apply Hr, Hn.
+Qed.
+
+Lemma good_ctx_set k v st : good st (ctx_set k v st).
+Proof.
+  unfold ctx_set.
+  assert (Hin : good st match frames st with
+                        | [] => st
+                        | f :: r => mk_state (frame_set k v f :: r) ((k, length r) :: log st)
+                        end).
+  { destruct st as [fr lg]; cbn [frames log]. destruct fr as [|f r]; [apply good_refl|].
+    exists [(k, length r)]. split; [reflexivity|]. apply rel_set_head. }
+  destruct (is_reserved k); [exact Hin|].
+  destruct (set_existing k v (frames st)) as [[fr' lv]|] eqn:E; [|exact Hin].
+  exists [(k, lv)]. split; [reflexivity|]. cbn [frames]. eapply set_existing_rel; eauto.
+Qed.
+
+Lemma good_push_pop c st1 st2 : good (push c st1) st2 -> good st1 (pop st2).
+Proof.
+  intros (w & L & N & R). exists w. split; [exact L|].
+  unfold push, pop in *. cbn [frames log] in *.
+  destruct (frames st2) as [|c' r2]; [discriminate|]. cbn [tl].
+  cbn [length] in N. injection N as N.
+  split; [exact N|].
+  intros v j Hn. specialize (R v j Hn). cbn [lvl] in R. rewrite <- N in R.
+  destruct (Nat.eqb_spec j (length (frames st1))) as [Hj|Hj]; [|exact R].
+  rewrite (lvl_out r2) by lia. rewrite (lvl_out (frames st1)) by lia. reflexivity.
+Qed.
+
+(* ------------------------------------------------------------------ *)
+(* T3.frames: one fuel level *)
+
+Definition ev_good (ev : state -> term -> res * state) : Prop :=
+  forall st t r st', ev st t = (r, st') -> good st st'.
+
+Section StepGood.
+  Variable fm : bool.
+  Variable ev : state -> term -> res * state.
+  Hypothesis Hev : ev_good ev.
+
+  Lemma callv_good st t r st' : callv ev st t = (r, st') -> good st st'.
+  Proof. unfold callv. apply Hev. Qed.
+
+  Lemma eval_args_good l : forall st o k st', eval_args ev st l = (o, k, st') -> good st st'.
+  Proof.
+    induction l as [|q r IH]; intros st o k st' H; cbn [eval_args] in H.
+    - inversion H; subst. apply good_refl.
+    - destruct (callv ev st q) as [rq st1] eqn:E1. apply callv_good in E1.
+      destruct rq as [v|k1].
+      + destruct (eval_args ev st1 r) as [[o2 k2] st2] eqn:E2. apply IH in E2.
+        destruct o2; inversion H; subst; eapply good_trans; eauto.
+      + inversion H; subst. exact E1.
+  Qed.
+
+  Lemma eval_seq_good l : forall st last r st', eval_seq ev st l last = (r, st') -> good st st'.
+  Proof.
+    induction l as [|y l IH]; intros st last r st' H; cbn [eval_seq] in H.
+    - inversion H; subst. apply good_refl.
+    - destruct (callv ev st y) as [ry st1] eqn:E1. apply callv_good in E1.
+      destruct ry as [v|k].
+      + apply IH in H. eapply good_trans; eauto.
+      + inversion H; subst. exact E1.
+  Qed.
+
+  Lemma eval_fn_good st x xa xargs xarity r st' :
+    eval_fn true fm ev st x xa xargs xarity = (r, st') -> good st st'.
+  Proof.
+    unfold eval_fn. intros H.
+    destruct (resolve3 (frames st) xa [xargs] xarity) as [[[f f_args] f_arity]|];
+      [|inversion H; subst; apply good_refl].
+    destruct (merge_projections fm (rev f_args)) as [a|l|] eqn:EM;
+      [| |inversion H; subst; apply good_refl].
+    - (* MList *)
+      destruct (merged_info (MList a)) as [[n holes] args].
+      destruct ((n <? f_arity)%nat || holes); [inversion H; subst; apply good_refl|].
+      destruct (eval_args ev st (firstn 3 args)) as [[o k] st1] eqn:EA. apply eval_args_good in EA.
+      destruct o as [vs|]; [|inversion H; subst; exact EA].
+      destruct (bind_frame f vs) as [c2 f1].
+      destruct (callv ev (push c2 st1) f1) as [rr st2] eqn:EB. apply callv_good in EB.
+      apply good_push_pop in EB.
+      destruct rr; inversion H; subst; eapply good_trans; eauto.
+    - (* MArr *)
+      destruct (merged_info (MArr l)) as [[n holes] args].
+      destruct ((n <? f_arity)%nat || holes); [inversion H; subst; apply good_refl|].
+      destruct (eval_args ev st (firstn 3 args)) as [[o k] st1] eqn:EA. apply eval_args_good in EA.
+      destruct o as [vs|]; [|inversion H; subst; exact EA].
+      destruct (bind_frame f vs) as [c2 f1].
+      destruct (callv ev (push c2 st1) f1) as [rr st2] eqn:EB. apply callv_good in EB.
+      apply good_push_pop in EB.
+      destruct rr; inversion H; subst; eapply good_trans; eauto.
+  Qed.
+
+  Lemma step_good : ev_good (eval_step true fm ev).
+  Proof.
+    intros st t r st' H. destruct t; cbn [eval_step] in H;
+      try (inversion H; subst; apply good_refl).
+    - (* TSym *)
+      destruct (ctx_lookup s (frames st)); [inversion H; subst; apply good_refl|].
+      destruct (is_reserved s); inversion H; subst; [apply good_refl|apply good_ctx_set].
+    - (* TOp1 *)
+      destruct (ev st t) as [ra st1] eqn:E1. apply Hev in E1.
+      destruct ra; inversion H; subst; exact E1.
+    - (* TOp2 *)
+      assert (Hgen : forall st0 rb st1 (E1 : good st0 st1) rr st2,
+                 (match rb with
+                  | Err k => (Err k, st1)
+                  | Ok vb =>
+                      let (ra, st2) := ev st1 t1 in
+                      match ra with
+                      | Err k => (Err k, st2)
+                      | Ok va =>
+                          match o with
+                          | At => match va with
+                                  | TSym _ | TFn _ _ _ _ => ev st2 (TFn true va (Some (at_args vb)) 1)
+                                  | _ => (apply2 o va vb, st2)
+                                  end
+                          | _ => (apply2 o va vb, st2)
+                          end
+                      end
+                  end) = (rr, st2) -> good st0 st2).
+      { intros st0 rb st1 E1 rr st2 HH. destruct rb as [vb|k]; [|inversion HH; subst; exact E1].
+        destruct (ev st1 t1) as [ra st2'] eqn:E2. apply Hev in E2.
+        destruct ra as [va|k]; [|inversion HH; subst; eapply good_trans; eauto].
+        assert (G : good st0 st2') by (eapply good_trans; eauto).
+        destruct o; try (inversion HH; subst; exact G).
+        destruct va; try (inversion HH; subst; exact G);
+          apply Hev in HH; eapply good_trans; eauto. }
+      destruct o.
+      1-7: destruct (ev st t2) as [rb st1] eqn:E1; apply Hev in E1; eapply Hgen; eauto.
+      (* Define *)
+      destruct (ev st t2) as [rb st1] eqn:E1. apply Hev in E1.
+      destruct rb as [vb|k]; [|inversion H; subst; exact E1].
+      destruct t1; inversion H; subst; try exact E1.
+      eapply good_trans; [exact E1|apply good_ctx_set].
+    - (* TFn *)
+      destruct iscall; [|inversion H; subst; apply good_refl].
+      eapply eval_fn_good; eauto.
+    - (* TCond *)
+      destruct (callv ev st t1) as [rc st1] eqn:E1. apply callv_good in E1.
+      destruct rc as [q|k]; [|inversion H; subst; exact E1].
+      destruct (truthy q); apply callv_good in H; eapply good_trans; eauto.
+    - (* TSeq *)
+      destruct l as [|y l]; [inversion H; subst; apply good_refl|].
+      destruct (callv ev st y) as [ry st1] eqn:E1. apply callv_good in E1.
+      destruct ry as [v|k]; [|inversion H; subst; exact E1].
+      apply eval_seq_good in H. eapply good_trans; eauto.
+  Qed.
+End StepGood.
+
+Lemma eval_good fm fuel : ev_good (eval true fm fuel).
+Proof.
+  induction fuel as [|f IH]; intros st t r st' H; cbn [eval] in H.
+  - inversion H; subst. apply good_refl.
+  - eapply step_good; eauto.
+Qed.
+
+(* ------------------------------------------------------------------ *)
+(* T3.frames: statement over all fuel, programs and outcomes *)
+
+Lemma ctx_lookup_lvl v : forall fr fr',
+  length fr = length fr' -> (forall j, lvl fr' j v = lvl fr j v) -> ctx_lookup v fr' = ctx_lookup v fr.
+Proof.
+  induction fr as [|f r IH]; intros [|f' r'] HL H; try discriminate; [reflexivity|].
+  cbn [length] in HL. injection HL as HL. cbn [ctx_lookup].
+  pose proof (H (length r)) as H0. cbn [lvl] in H0. rewrite <- HL, Nat.eqb_refl in H0. rewrite H0.
+  destruct (lookup v f); [reflexivity|]. apply IH; [exact HL|].
+  intros j. destruct (Nat.eqb_spec j (length r)) as [E|E].
+  - rewrite (lvl_out r) by lia. rewrite (lvl_out r') by lia. reflexivity.
+  - specialize (H j). cbn [lvl] in H. rewrite <- HL in H.
+    destruct (Nat.eqb_spec j (length r)); [contradiction|]. exact H.
+Qed.
+
+Lemma frames_restored fm fuel st e r st' :
+  eval true fm fuel st e = (r, st') ->
+  length (frames st') = length (frames st) /\
+  exists w, log st' = w ++ log st /\
+    (forall v j, ~ In (v, j) w -> lvl (frames st') j v = lvl (frames st) j v) /\
+    (forall v, (forall j, ~ In (v, j) w) -> ctx_lookup v (frames st') = ctx_lookup v (frames st)).
+Proof.
+  intros H. apply eval_good in H. destruct H as (w & L & N & R).
+  split; [symmetry; exact N|]. exists w. split; [exact L|]. split; [exact R|].
+  intros v Hv. apply ctx_lookup_lvl; [exact N|]. intros j. apply R, Hv.
+Qed.
+
+(* nothing was written at all: the stack is observably the one before *)
+Lemma frames_untouched fm fuel st e r st' :
+  eval true fm fuel st e = (r, st') -> log st' = log st ->
+  forall v, ctx_lookup v (frames st') = ctx_lookup v (frames st).
+Proof.
+  intros H HL v. destruct (frames_restored _ _ _ _ _ _ H) as (_ & w & L & _ & U).
+  rewrite HL in L. assert (w = []).
+  { destruct w; [reflexivity|]. apply (f_equal (@length _)) in L. rewrite app_length in L. cbn in L. lia. }
+  subst w. apply U. intros j [].
+Qed.
+
+(* ------------------------------------------------------------------ *)
+(* T3.merge *)
+
+Lemma is_none_eq s : is_none s = true -> s = TNone.
+Proof. destruct s; try discriminate; reflexivity. Qed.
+
+Lemma fill_from_exhausted fill : forall base m, (length fill <= m)%nat -> fill_from m base fill = base.
+Proof.
+  induction base as [|s r IH]; intros m H; cbn [fill_from]; [reflexivity|].
+  destruct (is_none s) eqn:E.
+  - rewrite nth_overflow by lia. rewrite IH by lia. apply is_none_eq in E. subst. reflexivity.
+  - rewrite IH by lia. reflexivity.
+Qed.
+
+Lemma skipn_S_tl {A} (l : list A) : forall m, skipn (S m) l = tl (skipn m l).
+Proof.
+  induction l as [|a l IH]; intros m; [destruct m; reflexivity|].
+  destruct m; [reflexivity|]. change (skipn (S (S m)) (a :: l)) with (skipn (S m) l).
+  change (skipn (S m) (a :: l)) with (skipn m l). apply IH.
+Qed.
+
+Lemma fill_once_from fill : forall base m, fill_once base (skipn m fill) = fill_from m base fill.
+Proof.
+  induction base as [|s r IH]; intros m; cbn [fill_once fill_from]; [reflexivity|].
+  destruct (is_none s) eqn:E.
+  - destruct (skipn m fill) as [|a fa'] eqn:ES.
+    + assert (length fill <= m)%nat.
+      { destruct (Nat.le_gt_cases (length fill) m); [assumption|].
+        apply (f_equal (@length _)) in ES. rewrite skipn_length in ES. cbn in ES. lia. }
+      rewrite nth_overflow by lia. rewrite fill_from_exhausted by lia.
+      apply is_none_eq in E. subst. reflexivity.
+    + assert (Hn : nth m fill TNone = a).
+      { rewrite <- (firstn_skipn m fill) at 1. rewrite ES.
+        assert (length (firstn m fill) = m).
+        { apply firstn_length_le. destruct (Nat.le_gt_cases m (length fill)); [assumption|].
+          rewrite skipn_all2 in ES by lia. discriminate. }
+        rewrite app_nth2 by lia. rewrite H, Nat.sub_diag. reflexivity. }
+      assert (Hs : skipn (S m) fill = fa').
+      { rewrite skipn_S_tl, ES. reflexivity. }
+      rewrite Hn, <- Hs, IH. reflexivity.
+  - rewrite IH. reflexivity.
+Qed.
+
+Lemma new_outer_fill fills : forall base, new_outer base (map Some fills) = Some (fill_all base fills).
+Proof.
+  unfold fill_all. induction fills as [|fa more IH]; intros base; cbn [new_outer map fold_left]; [reflexivity|].
+  rewrite IH. change fa with (skipn 0 fa) at 1. rewrite fill_once_from. reflexivity.
+Qed.
+
+Lemma merge_fill_all base fills :
+  existsb is_none base = true -> fills <> [] ->
+  merge_projections true (Some base :: map Some fills) = MArr (fill_all base fills).
+Proof.
+  intros Hh Hf. unfold merge_projections. destruct fills as [|fa more]; [contradiction|].
+  cbn [map]. cbn [has_none]. rewrite Hh. cbn [negb].
+  change (Some fa :: map Some more) with (map Some (fa :: more)).
+  rewrite new_outer_fill. reflexivity.
+Qed.
+
+Lemma merge_no_holes fm base rest :
+  existsb is_none base = false -> merge_projections fm (Some base :: rest) = MList (Some base).
+Proof.
+  intros Hh. unfold merge_projections. destruct rest; [reflexivity|]. cbn [has_none]. rewrite Hh. reflexivity.
+Qed.
+
+(* the characterisation of positional filling, entry by entry *)
+Lemma fill_from_nth fill : forall base m i,
+  nth i (fill_from m base fill) TNone =
+    if is_none (nth i base TNone) && (i <? length base)%nat
+    then nth (m + length (filter is_none (firstn i base))) fill TNone
+    else nth i base TNone.
+Proof.
+  induction base as [|s r IH]; intros m i; cbn [fill_from].
+  - destruct i; cbn; rewrite ?andb_false_r; reflexivity.
+  - destruct i as [|i].
+    + cbn [nth firstn filter length]. destruct (is_none s) eqn:E; cbn [nth andb].
+      * cbn. rewrite Nat.add_0_r. reflexivity.
+      * reflexivity.
+    + destruct (is_none s) eqn:E; cbn [nth firstn filter length]; rewrite IH, E.
+      * replace (S i <? S (length r))%nat with (i <? length r)%nat by reflexivity.
+        cbn [length]. replace (S m + length (filter is_none (firstn i r)))%nat
+          with (m + S (length (filter is_none (firstn i r))))%nat by lia. reflexivity.
+      * reflexivity.
+Qed.
+
+(* ------------------------------------------------------------------ *)
+(* T3.cond *)
+
+Lemma cond_unfold fin fm fuel st c a b :
+  eval fin fm (S fuel) st (TCond c a b) =
+  let (rc, st1) := call fin fm fuel st c in
+  match rc with
+  | Err k => (Err k, st1)
+  | Ok q => if truthy q then call fin fm fuel st1 a else call fin fm fuel st1 b
+  end.
+Proof. reflexivity. Qed.
+
+Lemma cond_selects fin fm fuel st c a b q st1 :
+  call fin fm fuel st c = (Ok q, st1) ->
+  (truthy q = true -> forall b', eval fin fm (S fuel) st (TCond c a b') = call fin fm fuel st1 a) /\
+  (truthy q = false -> forall a', eval fin fm (S fuel) st (TCond c a' b) = call fin fm fuel st1 b).
+Proof.
+  intros H. split; intros T x; rewrite cond_unfold, H, T; reflexivity.
+Qed.
+
+Lemma cond_error fin fm fuel st c a b k st1 :
+  call fin fm fuel st c = (Err k, st1) -> eval fin fm (S fuel) st (TCond c a b) = (Err k, st1).
+Proof. intros H. rewrite cond_unfold, H. reflexivity. Qed.
+
+Lemma truthy_false_iff q :
+  truthy q = false <-> (q = TInt 0 \/ q = TArr [] \/ q = TStr [] \/ q = TSeq []).
+Proof.
+  split.
+  - destruct q as [z|s|c|l| |s|o a|o a b|ic a ar n|c a b|l]; cbn [truthy]; try discriminate.
+    + intros H. apply negb_false_iff, Z.eqb_eq in H. subst. auto.
+    + destruct s; [auto|discriminate].
+    + destruct l; [auto|discriminate].
+    + destruct l; [auto 6|discriminate].
+  - intros [->|[->|[->| ->]]]; reflexivity.
+Qed.
+
+(* ------------------------------------------------------------------ *)
+(* T3.subst, part 1: every call form enters the body in the same frame *)
+
+Definition op_rooted (b : term) : bool :=
+  match b with TOp1 _ _ | TOp2 _ _ _ | TCond _ _ _ => true | _ => false end.
+
+(* what a call of the body b with evaluated arguments comes to *)
+Definition enter (fin fm : bool) (fuel : nat) (st : state) (b : term) (args : list term) : res * state :=
+  let '(o, k, st1) := eval_args (eval fin fm fuel) st (firstn 3 args) in
+  match o with
+  | None => (Err k, st1)
+  | Some vs =>
+      let (r, st2) := eval fin fm fuel (push (frame_set nDotF b (combine [nX; nY; nZ] vs)) st1) b in
+      match r with
+      | Ok _ => (r, pop st2)
+      | Err _ => if fin then (r, pop st2) else (r, st2)
+      end
+  end.
+
+Lemma resolve_fn_op_rooted fr b fa n : op_rooted b = true -> resolve_fn fr b fa n = Some (b, fa, n).
+Proof. destruct b; try discriminate; reflexivity. Qed.
+
+Lemma as_call_op_rooted b : op_rooted b = true -> as_call b = b.
+Proof. destruct b; try discriminate; reflexivity. Qed.
+
+Lemma local_decl_op_rooted b : op_rooted b = true -> local_decl b = None.
+Proof. destruct b; try discriminate; reflexivity. Qed.
+
+Lemma enter_body fin fm fuel st x b fargs n args :
+  op_rooted b = true -> existsb is_none args = false -> (n <= length args)%nat ->
+  resolve3 (frames st) (match x with TFn _ a _ _ => a | _ => x end) [Some args] fargs = Some (b, [Some args], n) ->
+  forall c ar, x = TFn c (match x with TFn _ a _ _ => a | _ => x end) ar fargs ->
+  eval_fn fin fm (eval fin fm fuel) st x (match x with TFn _ a _ _ => a | _ => x end) (Some args) fargs
+  = enter fin fm fuel st b args.
+Proof.
+  intros Hb Hh Hn Hr c ar _. unfold eval_fn, enter. rewrite Hr. cbn [rev app].
+  unfold merge_projections. cbn [merged_info]. rewrite Hh.
+  assert ((length args <? n)%nat = false) as -> by (apply Nat.ltb_ge; exact Hn). cbn [orb].
+  destruct (eval_args (eval fin fm fuel) st (firstn 3 args)) as [[o k] st1].
+  destruct o as [vs|]; [|reflexivity].
+  unfold bind_frame. rewrite (local_decl_op_rooted _ Hb). unfold callv. rewrite (as_call_op_rooted _ Hb).
+  reflexivity.
+Qed.
+
+(* direct call {b}(args) *)
+Lemma direct_call fin fm fuel st b args n :
+  op_rooted b = true -> existsb is_none args = false -> (n <= length args)%nat ->
+  eval fin fm (S fuel) st (TFn true b (Some args) n) = enter fin fm fuel st b args.
+Proof.
+  intros Hb Hh Hn. cbn [eval eval_step].
+  apply (enter_body fin fm fuel st (TFn true b (Some args) n) b n n args Hb Hh Hn) with (c := true) (ar := Some args);
+    [|reflexivity].
+  cbn beta iota. unfold resolve3. rewrite !(resolve_fn_op_rooted _ _ _ _ Hb). reflexivity.
+Qed.
+
+(* call through a variable g(args), g bound to the function {b} of arity n *)
+Lemma var_call fin fm fuel st g c0 b args n n' :
+  op_rooted b = true -> existsb is_none args = false -> (n <= length args)%nat -> (0 < n')%nat ->
+  is_reserved g = false -> ctx_lookup g (frames st) = Some (TFn c0 b None n) ->
+  eval fin fm (S fuel) st (TFn true (TSym g) (Some args) n') = enter fin fm fuel st b args.
+Proof.
+  intros Hb Hh Hn Hp Hg Hl. cbn [eval eval_step].
+  apply (enter_body fin fm fuel st (TFn true (TSym g) (Some args) n') b n' n args Hb Hh Hn) with (c := true) (ar := Some args);
+    [|reflexivity].
+  cbn beta iota. unfold resolve3. unfold resolve_fn at 1. rewrite Hl. cbn [is_kgfn orb].
+  assert ((0 <? n')%nat = true) as -> by (apply Nat.ltb_lt; exact Hp).
+  rewrite !(resolve_fn_op_rooted _ _ _ _ Hb). reflexivity.
+Qed.
+
+(* recursive call .f(args) from inside the body b (whose frame binds .f to b) *)
+Lemma dotf_call fin fm fuel st b args n' :
+  op_rooted b = true -> existsb is_none args = false -> (n' <= length args)%nat ->
+  ctx_lookup nDotF (frames st) = Some b ->
+  eval fin fm (S fuel) st (TFn true (TSym nDotF) (Some args) n') = enter fin fm fuel st b args.
+Proof.
+  intros Hb Hh Hn Hl. cbn [eval eval_step].
+  apply (enter_body fin fm fuel st (TFn true (TSym nDotF) (Some args) n') b n' n' args Hb Hh Hn) with (c := true) (ar := Some args);
+    [|reflexivity].
+  cbn beta iota. unfold resolve3. unfold resolve_fn at 1. rewrite Hl.
+  replace (is_kgfn b || negb (is_reserved nDotF)) with true by (rewrite orb_true_r; reflexivity).
+  assert (Hs : forall fa m, match b with
+                 | TFn _ fa0 fargs farity =>
+                     if (0 <? m)%nat then
+                       match fargs with
+                       | None => Some (fa0, fa, farity)
+                       | Some l => if has_none fargs then Some (fa0, fa ++ [Some l], farity) else Some (b, fa, m)
+                       end
+                     else Some (b, fa, m)
+                 | _ => Some (b, fa, m)
+                 end = Some (b, fa, m)) by (intros; destruct b; try discriminate; reflexivity).
+  rewrite Hs. rewrite !(resolve_fn_op_rooted _ _ _ _ Hb). reflexivity.
+Qed.
+
+(* ------------------------------------------------------------------ *)
+(* T3.subst, part 2: evaluating a pure body in the call frame = evaluating the
+   textually substituted body in the caller's context *)
+
+Lemma lookup_combine_in (ns : list name) : forall (vs : list term) s v,
+  lookup s (combine ns vs) = Some v -> In v vs.
+Proof.
+  induction ns as [|n ns IH]; intros [|v0 vs] s v H; cbn [combine lookup] in H; try discriminate.
+  destruct (s =? n)%Z; [inversion H; left; reflexivity|right; eapply IH; eauto].
+Qed.
+
+Lemma self_eval_eval fin fm fuel st v : self_eval v = true -> eval fin fm (S fuel) st v = (Ok v, st).
+Proof. destruct v; try discriminate; reflexivity. Qed.
+
+Lemma self_eval_as_call v : self_eval v = true -> as_call v = v.
+Proof. destruct v; try discriminate; reflexivity. Qed.
+
+Section PureSubst.
+  Variables (fin fm : bool) (vs : list term) (b : term) (fr : list frame) (lg : list (name * nat)).
+  Hypothesis Hvs : forall v, In v vs -> self_eval v = true.
+
+  Let cx := combine [nX; nY; nZ] vs.
+  Let cfull := frame_set nDotF b cx.
+  Let S1 := mk_state (cfull :: fr) lg.
+  Let S0 := mk_state fr lg.
+
+  Lemma as_call_subst e : pure e -> as_call (subst cx e) = subst cx e.
+  Proof.
+    intros P. destruct P; try reflexivity. cbn [subst].
+    destruct (lookup s cx) eqn:E; [|reflexivity].
+    apply self_eval_as_call, Hvs. eapply lookup_combine_in; eauto.
+  Qed.
+
+  Lemma as_call_pure e : pure e -> as_call e = e.
+  Proof. intros P; destruct P; reflexivity. Qed.
+
+  Lemma pure_subst : forall fuel e, pure e -> names_bound cx fr e ->
+    forall r st', eval fin fm fuel S1 e = (r, st') ->
+    st' = S1 /\ eval fin fm fuel S0 (subst cx e) = (r, S0).
+  Proof.
+    induction fuel as [|f IH]; intros e P NB r st' H.
+    - cbn [eval] in *. inversion H; subst. split; reflexivity.
+    - destruct P as [z|s|c|l|s|o a Pa|o a b' Hd Ha Pa Pb|q a b' Pq Pa Pb].
+      + cbn in H. inversion H; subst. split; reflexivity.
+      + cbn in H. inversion H; subst. split; reflexivity.
+      + cbn in H. inversion H; subst. split; reflexivity.
+      + cbn in H. inversion H; subst. split; reflexivity.
+      + (* TSym *)
+        inversion NB as [| | | |s' Hnf Hb| | |]; subst.
+        cbn [eval eval_step frames ctx_lookup] in H. unfold S1 in H. cbn [frames ctx_lookup] in H.
+        unfold cfull in H. rewrite lookup_frame_set_other in H by exact Hnf.
+        cbn [subst]. fold cx in H.
+        destruct (lookup s cx) as [v|] eqn:E.
+        * inversion H; subst. split; [reflexivity|].
+          apply self_eval_eval, Hvs. eapply lookup_combine_in; eauto.
+        * cbn [eval eval_step]. unfold S0 at 1. cbn [frames].
+          destruct (ctx_lookup s fr) as [v|] eqn:E2.
+          -- inversion H; subst. split; reflexivity.
+          -- destruct Hb as [Hb|[Hb|Hb]]; try congruence.
+             rewrite Hb in *. inversion H; subst. split; reflexivity.
+      + (* TOp1 *)
+        inversion NB; subst. cbn [eval eval_step] in H. cbn [subst eval eval_step].
+        destruct (eval fin fm f S1 a) as [ra s1] eqn:E. apply IH in E; [|assumption|assumption].
+        destruct E as [-> E]. rewrite E.
+        destruct ra; inversion H; subst; split; reflexivity.
+      + (* TOp2 *)
+        inversion NB; subst. cbn [subst].
+        assert (Hgen : (let (rb, st1) := eval fin fm f S1 b' in
+                        match rb with
+                        | Err k => (Err k, st1)
+                        | Ok vb => let (ra, st2) := eval fin fm f st1 a in
+                                   match ra with
+                                   | Err k => (Err k, st2)
+                                   | Ok va => (apply2 o va vb, st2)
+                                   end
+                        end) = (r, st') ->
+                       st' = S1 /\
+                       (let (rb, st1) := eval fin fm f S0 (subst cx b') in
+                        match rb with
+                        | Err k => (Err k, st1)
+                        | Ok vb => let (ra, st2) := eval fin fm f st1 (subst cx a) in
+                                   match ra with
+                                   | Err k => (Err k, st2)
+                                   | Ok va => (apply2 o va vb, st2)
+                                   end
+                        end) = (r, S0)).
+        { intros HH.
+          destruct (eval fin fm f S1 b') as [rb s1] eqn:E1. apply IH in E1; [|assumption|assumption].
+          destruct E1 as [-> E1]. rewrite E1.
+          destruct rb as [vb|k]; [|inversion HH; subst; split; reflexivity].
+          destruct (eval fin fm f S1 a) as [ra s2] eqn:E2. apply IH in E2; [|assumption|assumption].
+          destruct E2 as [-> E2]. rewrite E2.
+          destruct ra; inversion HH; subst; split; reflexivity. }
+        destruct o; try contradiction; cbn [eval eval_step] in H |- *; exact (Hgen H).
+      + (* TCond *)
+        inversion NB; subst. cbn [eval eval_step] in H. cbn [subst eval eval_step].
+        unfold callv in *. rewrite (as_call_pure _ Pq) in H. rewrite (as_call_subst _ Pq).
+        destruct (eval fin fm f S1 q) as [rq s1] eqn:E. apply IH in E; [|assumption|assumption].
+        destruct E as [-> E]. rewrite E.
+        destruct rq as [vq|k]; [|inversion H; subst; split; reflexivity].
+        destruct (truthy vq).
+        * rewrite (as_call_pure _ Pa) in H. rewrite (as_call_subst _ Pa). apply IH in H; assumption.
+        * rewrite (as_call_pure _ Pb) in H. rewrite (as_call_subst _ Pb). apply IH in H; assumption.
+  Qed.
+End PureSubst.
+
+(* T3.subst: a call that enters the pure body b with data arguments vs gives the value of the
+   substituted body evaluated in the caller's context, and leaves the caller's context as the
+   evaluation of the arguments left it *)
+Lemma enter_is_subst fm fuel st b args vs st1 k :
+  pure b -> eval_args (eval true fm fuel) st (firstn 3 args) = (Some vs, k, st1) ->
+  (forall v, In v vs -> self_eval v = true) ->
+  names_bound (combine [nX; nY; nZ] vs) (frames st1) b ->
+  enter true fm fuel st b args = (fst (eval true fm fuel st1 (subst (combine [nX; nY; nZ] vs) b)), st1).
+Proof.
+  intros P EA Hvs NB. unfold enter. rewrite EA.
+  destruct st1 as [fr1 lg1]. unfold push. cbn [frames log] in *.
+  destruct (eval true fm fuel (mk_state (frame_set nDotF b (combine [nX; nY; nZ] vs) :: fr1) lg1) b) as [r st2] eqn:E.
+  eapply pure_subst in E; eauto. destruct E as [-> E]. rewrite E. unfold pop. cbn [frames log tl fst].
+  destruct r; reflexivity.
+Qed.
+
+(* call through @ : g@[v1 v2 ...] with g bound to the function {b} *)
+Lemma at_call fin fm fuel st g c0 b vals n :
+  op_rooted b = true -> existsb is_none vals = false -> (n <= length vals)%nat ->
+  ctx_lookup g (frames st) = Some (TFn c0 b None n) ->
+  eval fin fm (S (S fuel)) st (TOp2 At (TSym g) (TArr vals)) = enter fin fm fuel st b vals.
+Proof.
+  intros Hb Hh Hn Hl.
+  change (eval fin fm (S (S fuel)) st (TOp2 At (TSym g) (TArr vals)))
+    with (eval_step fin fm (eval fin fm (S fuel)) st (TOp2 At (TSym g) (TArr vals))).
+  cbn [eval_step].
+  change (eval fin fm (S fuel) st (TArr vals)) with (Ok (TArr vals), st).
+  cbn beta iota.
+  assert (Hs : eval fin fm (S fuel) st (TSym g) = (Ok (TFn c0 b None n), st))
+    by (cbn [eval eval_step]; rewrite Hl; reflexivity).
+  rewrite Hs. cbn [at_args].
+  change (eval fin fm (S fuel) st (TFn true (TFn c0 b None n) (Some vals) 1))
+    with (eval_fn fin fm (eval fin fm fuel) st (TFn true (TFn c0 b None n) (Some vals) 1) (TFn c0 b None n) (Some vals) 1).
+  apply (enter_body fin fm fuel st (TFn true (TFn c0 b None n) (Some vals) 1) b 1 n vals Hb Hh Hn) with (c := true) (ar := Some vals);
+    [|reflexivity].
+  cbn beta iota. unfold resolve3. unfold resolve_fn at 1. cbn [Nat.ltb Nat.leb].
+  rewrite !(resolve_fn_op_rooted _ _ _ _ Hb). reflexivity.
+Qed.
